@@ -49,7 +49,7 @@ def gen_sub_edit(rng, ln, present):
     return ["gfield", ln, gn, kind, v]
 
 
-def gen_ops(rng, spec, nops, save_modes, p_save=0.12, structures=("package",), sub_edits=0.0):
+def gen_ops(rng, spec, nops, save_modes, p_save=0.12, structures=("package",), sub_edits=0.0, empty_features=False):
     """ops over a *copy* of spec that tracks what exists, so most ops are meaningful; `sub_edits` = share of
     operations that edit one object below a glyph (C01/C06: the dirty flags of those objects are compared)"""
     sh = copy.deepcopy(spec)
@@ -181,7 +181,12 @@ def gen_ops(rng, spec, nops, save_modes, p_save=0.12, structures=("package",), s
             ops.append(["group", rng.choice(["public.kern1.O", "public.kern2.H", "other", "grp2"]),
                         rng.choice([None, rng.sample(fg.GLYPH_NAMES, rng.randint(0, 3))])])
         elif r < 0.925:
-            ops.append(["feat", rng.choice(["# g\n", "# f\n", "feature kern {\n    pos A B -3;\n} kern;\n"])])
+            # the empty text is an edit too (C01/C06): a font that has a features.fea must lose it at the next save
+            # (only offered while the font HAS a text: None -> "" on a font without features flags the features object
+            # though the content stays "no features", which the blob abstraction of M-Parts does not tell apart)
+            ops.append(["feat", rng.choice(["# g\n", "# f\n", "feature kern {\n    pos A B -3;\n} kern;\n"] +
+                                           (["", ""] if empty_features and sh.get("features") else []))])
+            sh["features"] = ops[-1][1]
         elif r < 0.94:
             ops.append(["lib", rng.choice(["com.a.k1", "com.a.k2", "org.new"]), rng.choice([None, 9, "s", {"a": [1]}])])
         elif r < 0.95:
@@ -1061,10 +1066,10 @@ def neighbourhood(case, step, rng):
     k = op[0]
     undo = []
     if k == "img":
-        undo = [[["img", op[1], None]], [["img", op[1], 5]], [["img", op[1], 5], ["img", op[1], None]],
+        undo = [[["img", op[1], 6], ["img", op[1], None], ["img", op[1], 6]], [["img", op[1], None]], [["img", op[1], 5]], [["img", op[1], 5], ["img", op[1], None]],
                 [["img", op[1], None], ["img", op[1], 5], ["img", op[1], None]]]
     elif k == "dat":
-        undo = [[["dat", op[1], None]], [["dat", op[1], 5]], [["dat", op[1], 5], ["dat", op[1], None]],
+        undo = [[["dat", op[1], 6], ["dat", op[1], None], ["dat", op[1], 6]], [["dat", op[1], None]], [["dat", op[1], 5]], [["dat", op[1], 5], ["dat", op[1], None]],
                 [["dat", op[1], None], ["dat", op[1], 5], ["dat", op[1], None]]]
     elif k == "gdel":
         undo = [[["gnew", op[1], op[2]]], [["gnew", op[1], op[2]], ["gdel", op[1], op[2]]]]
@@ -1114,6 +1119,10 @@ def neighbourhood(case, step, rng):
         tails = layer_stress[:3] + undone + generic[:1] + layer_stress[3:] + generic[1:]
     else:
         tails = generic[:1] + undone + generic[1:] + layer_stress
+    if case.get("origin", "disk") == "memory" and not any(o[0] == "save" for o in base):
+        # a font that has never been saved: its first save is a complete one, which forgives what an in-place save
+        # does not — let the endings start from a saved font as well
+        tails = [x for t in tails[:6] for x in (t, [save] + t)] + tails[6:]
     cands = [base + t for t in tails]
     # the rest of the original history, then the same endings
     cands += [ops + [save], ops + edits + [save], ops + [save_new] + edits + [save]]
@@ -1131,7 +1140,8 @@ def neighbourhood(case, step, rng):
             yield dict(case, ops=c, preread=[], preread_glyphs=[])
 
 
-def gen_case(rng, tier, save_modes, structures=("package", "zip"), maxops=None, p_save=0.12, sub_edits=0.0):
+def gen_case(rng, tier, save_modes, structures=("package", "zip"), maxops=None, p_save=0.12, sub_edits=0.0,
+             empty_features=False):
     spec = fg.gen_font(rng)
     structure = rng.choice(structures)
     origin = "memory" if rng.random() < 0.2 else "disk"
@@ -1147,7 +1157,8 @@ def gen_case(rng, tier, save_modes, structures=("package", "zip"), maxops=None, 
             for o in sc:
                 sh0.do(o)
             start = sh0.s
-    ops = pre + gen_ops(rng, start, nops, save_modes, p_save=p_save, structures=structures, sub_edits=sub_edits)
+    ops = pre + gen_ops(rng, start, nops, save_modes, p_save=p_save, structures=structures, sub_edits=sub_edits,
+                        empty_features=empty_features)
     if not any(o[0] == "save" for o in ops):
         ops.append(["save", rng.choice(save_modes), structure])
     if origin == "memory" :
